@@ -20,7 +20,8 @@ from lib import common as C
 
 ID = "C05"
 PROP_MODULES = ["GPVerif.Props.C05"]
-BUILD_TARGETS = ["GPVerif.Props.C05", "GPVerif.Gen.Formulas", "GPVerif.Gen.KernelFormulas", "GPVerif.Model.Kernels"]
+BUILD_TARGETS = ["GPVerif.Props.C05", "GPVerif.Gen.Formulas", "GPVerif.Gen.KernelFormulas", "GPVerif.Gen.KernelAxes",
+                 "GPVerif.Model.Kernels"]
 RULE = ("per exported kernel class: random parameter values across their ranges (public setters), d in 1..4, "
         "n1 != n2, x2 absent / different / sharing rows with x1 / duplicated rows, ARD and non-ARD, batch; every "
         "path selector on and off (inputs.requires_grad, params.requires_grad, diag, trace_mode, lazy evaluation); "
@@ -39,15 +40,17 @@ EXHAUSTIVE = False
 
 GEN = os.path.join(C.LEAN_DIR, "GPVerif", "Gen", "Formulas.lean")
 GENK = os.path.join(C.LEAN_DIR, "GPVerif", "Gen", "KernelFormulas.lean")
+GENA = os.path.join(C.LEAN_DIR, "GPVerif", "Gen", "KernelAxes.lean")
 EPS = 2.0 ** -52
 RTOL, ATOL = 1e-10, 1e-12
 
 
 def generate(ctx):
     sys.path.insert(0, os.path.join(C.VERIF, "harness"))
-    from translate import g5_formulas, g5_kernels
+    from translate import g5_axes, g5_formulas, g5_kernels
     ctx.notes["gen_changed"] = g5_formulas.generate(C.REPO, GEN)
     ctx.notes["gen_kernels_changed"] = g5_kernels.generate(C.REPO, GENK)
+    ctx.notes["gen_axes_changed"] = g5_axes.generate(C.REPO, GENA)
 
 
 # ------------------------------------------------------------------------------------------- wire format
@@ -1681,6 +1684,11 @@ def _reuse():
     return _c05_reuse
 
 
+def _axes():
+    from props import _c05_axes
+    return _c05_axes
+
+
 def correspondence(ctx):
     import torch
     torch.set_num_threads(2)
@@ -1701,7 +1709,8 @@ def correspondence(ctx):
             misc_checks(ctx, ctx.rng("misc"), q),
             interaction_terms(ctx, ctx.rng("interaction"), q),
             generated_kernels(ctx, ctx.rng("genk"), q),
-            _reuse().object_reuse(ctx, sys.modules[__name__], ctx.rng("reuse"), q)]
+            _reuse().object_reuse(ctx, sys.modules[__name__], ctx.rng("reuse"), q),
+            _axes().generated_axes(ctx, sys.modules[__name__], ctx.rng("gena"), q)]
     covered |= {"RBFKernelGrad", "Matern52KernelGrad", "PolynomialKernelGrad", "RBFKernelGradGrad",
                 "IndexKernel", "MultitaskKernel", "LCMKernel"}
     q.run()
